@@ -403,6 +403,7 @@ func arByTool(r *core.Rand) ([]byte, []string) {
 		return nil, nil
 	}
 	cmd := exec.Command("ar", append([]string{"rcDS", "out.a"}, names...)...)
+	cmd.Env = core.OrigEnv
 	cmd.Dir = dir
 	if cmd.Run() != nil {
 		return nil, nil
